@@ -21,13 +21,15 @@ CATALOGUES = {
         "L|C|+|B|+|*|ID:Z:A", "C|A|+|C|+|0|*|ID:Z:p1", "S|1|*", "S|3|*", "L|1|+|3|+|*|ID:Z:2",
         "C|A|+|B|+|1|2M", "C|A|-|B|+|0|*|ID:Z:c1",
         "P|p1|A+,B+|2M1D1M", "P|p2|B-,A-|*", "P|p4|A+,B+,C-|*,*",
-        "P|p5|A+,C+,A+|1M,*,*",
+        "P|p5|A+,C+,A+|1M,*,*", "P|p6|C+|*", "S|E|*|aa:A:c|bb:i:1|cc:J:[1, 2]",
         "#| comment", "H|xx:i:1", "H|TS:i:1", "H|yy:i:2|TS:i:2",
     ], ids=["A", "B", "C", "p1", "p2", "l1", "c1", "zz", "1", "3"], unused=True,
         renames=[("A", "D"), ("A", "B"), ("B", "p1"), ("p1", "q"), ("l1", "l2"), ("C", "zz"), ("A", "4"), ("3", "5"),
                  ("l1", "6"), ("p1", "9"), ("A", "*"), ("p1", "*"), ("B", "a b")],
-        tagedits=[("A", "xx:i:5"), ("B", "LN:i:7"), ("p1", "yy:Z:a b"), ("l1", "RC:i:3")],
-        deltags=[("l1", "ID:Z:l1"), ("c1", "ID:Z:c1")], addcs=["S|A|ACGT", "L|A|+|C|+|1M", "C|A|+|B|+|1|2M", "P|p2|B-,A-|*"],
+        tagedits=[("A", "xx:i:5"), ("B", "LN:i:7"), ("p1", "yy:Z:a b"), ("l1", "RC:i:3"), ("E", "aa:Z:s"), ("F", "bb:Z:t"),
+                  ("A", "zz:A:q"), ("D", "zz:i:3")],
+        deltags=[("l1", "ID:Z:l1"), ("c1", "ID:Z:c1"), ("F", "aa:A:c"), ("E", "cc:J:[1, 2]"), ("D", "zz:A:q")],
+        clones=[("E", "F"), ("A", "D"), ("p1", "q"), ("p6", "p7"), ("A", "B")], badtags=[("A", "xx:Z:bad"), ("p1", "yy:Z:bad"), ("l1", "RC:Z:bad")], addcs=["S|A|ACGT", "L|A|+|C|+|1M", "C|A|+|B|+|1|2M", "P|p2|B-,A-|*"],
         setfs=[("S|C|*", 2, "ACG"), ("S|A|ACGT", 2, "*"), ("L|A|+|B|+|2M1D1M", 5, "*"), ("L|A|+|C|+|1M", 2, "-"),
                ("L|A|+|C|+|1M", 3, "B"), ("C|A|+|B|+|1|2M", 5, "0"), ("C|A|+|B|+|1|2M", 6, "*"), ("C|A|+|B|+|1|2M", 2, "-"),
                ("C|A|+|B|+|1|2M", 1, "C"), ("P|p1|A+,B+|2M1D1M", 3, "*"), ("P|p2|B-,A-|*", 2, "A+,B+"),
@@ -36,7 +38,7 @@ CATALOGUES = {
         "S|A|*", "S|B|*", "S|C|*",
         "L|A|+|B|+|2M1D1M", "L|A|+|C|+|*", "L|B|-|A|-|1M1I2M", "L|A|+|A|-|*",
         "C|A|+|B|+|1|2M",
-        "P|p1|A+,B+|2M1D1M", "P|p2|B-,A-|*",
+        "P|p1|A+,B+|2M1D1M", "P|p2|B-,A-|*", "P|p3|B+|*",
     ], ids=["A", "B", "p1", "zz"], renames=[("A", "D"), ("A", "B")], tagedits=[("A", "xx:i:5"), ("p1", "yy:Z:a b")],
         validate=True,
         setfs=[("C|A|+|B|+|1|2M", 5, "0"), ("L|A|+|B|+|2M1D1M", 5, "*"), ("C|A|+|B|+|1|2M", 4, "-")]),
@@ -50,12 +52,16 @@ CATALOGUES = {
         "U|u1|a e1 g1", "U|u2|u1 o1", "U|u1|c|yy:i:2", "U|u1|b|yy:i:3", "U|u1|b|yy:Z:2",
         "U|u3|u4", "U|u4|u3",
         "X|custom|1", "S|o1|3|*", "S|2|3|*", "E|7|a+|2+|0|1|2|3$|*",
-        "# gfa2 comment", "H|TS:i:10",
+        "# gfa2 comment", "H|TS:i:10", "S|f|3|*|aa:A:c|bb:i:1",
     ], ids=["a", "b", "c", "e1", "e4", "g1", "o1", "o2", "u1", "u3", "zz", "2"], unused=True,
         renames=[("a", "d"), ("a", "b"), ("e1", "e9"), ("g1", "g9"), ("o1", "u1"), ("u1", "u2"), ("b", "e1"),
                  ("a", "8"), ("e1", "9"), ("2", "11"), ("a", "*"), ("e1", "*"), ("e4", "*"), ("g1", "*"), ("o1", "*"),
                  ("u1", "*"), ("u2", "*"), ("b", "a b"), ("e2", "e 2")],
-        tagedits=[("a", "xx:i:5"), ("e1", "yy:Z:a b"), ("u1", "yy:i:9"), ("o1", "xx:i:2"), ("g1", "zz:Z:q")],
+        tagedits=[("a", "xx:i:5"), ("e1", "yy:Z:a b"), ("u1", "yy:i:9"), ("o1", "xx:i:2"), ("g1", "zz:Z:q"), ("h", "aa:Z:s"),
+                  ("f", "bb:Z:t")],
+        badtags=[("a", "xx:Z:bad"), ("e1", "yy:Z:bad"), ("u1", "yy:Z:bad")],
+        clones=[("f", "h"), ("a", "d"), ("e1", "e9"), ("o1", "o9"), ("u1", "u9"), ("g1", "g9"), ("a", "b")],
+        deltags=[("h", "aa:A:c"), ("f", "bb:i:1"), ("e9", "yy:Z:a b")],
         addcs=["S|b|6|*", "E|*|a+|b+|2|4$|0|2|*", "F|a|x+|0|2|0|2|*", "O|o1|a+ b+", "X|custom|1"],
         setfs=[("S|a|4|ACGT", 3, "*"), ("S|b|6|*", 2, "7"), ("E|e1|a+|b+|2|4$|0|2|2M", 8, "*"), ("E|e1|a+|b+|2|4$|0|2|2M", 4, "1"),
                ("E|e1|a+|b+|2|4$|0|2|2M", 2, "a-"), ("E|e2|a+|b-|0|4$|1|5|*", 8, "4M"), ("G|g1|a+|b-|10|*", 4, "7"),
@@ -102,7 +108,8 @@ CATALOGUES["perml"] = dict(version="gfa1", lines=[
 ], ids=["A", "B", "p", "q"], renames=[])
 # version queue with clashing identifiers (known findings of C08: the flush is not transactional)
 CATALOGUES["kfq"] = dict(version="none", lines=[
-    "P|A|B+,C+|*", "S|A|*", "L|A|+|B|+|*|ID:Z:x", "P|x|A+,B+|*", "S|B|*", "#| c",
+    "P|A|B+,C+|*", "S|A|*", "L|A|+|B|+|*|ID:Z:x", "P|x|A+,B+|*", "S|B|*", "#| c", "H|VN:Z:1.0|bb:i:2", "H|aa:i:1",
+    "C|A|+|B|+|0|*|ID:Z:x",
 ], ids=["A", "x"], renames=[])
 CATALOGUES["ver"] = dict(version="none", lines=[
     "H|xx:i:1", "H|VN:Z:1.0", "H|VN:Z:2.0", "H|VN:Z:3.0",
@@ -156,6 +163,10 @@ def name_class(name):
     return 1 if name == "*" else 2 if (name == "" or " " in name or "\t" in name) else 0
 
 
+def universe_of(cat):
+    return sorted(set(cat["ids"]) | {b for _, b in cat["renames"]} | {x for ab in cat.get("clones", []) for x in ab})
+
+
 def text_of(src):
     return src.replace("|", "\t")
 
@@ -172,6 +183,8 @@ def build_ops(cat):
     for ln in cat["lines"]:
         if ln[0] in "LCEGFOUP":
             ops.append(dict(k="disc", text=text_of(ln), id="", id2=""))
+    for a, b in cat.get("clones", []):
+        ops.append(dict(k="addcl", text="", id=a, id2=b))
     for ln in cat.get("addcs", []):
         ops.append(dict(k="addc", text=text_of(ln), id="", id2=""))
     for ln, pos, val in cat.get("setfs", []):
@@ -189,6 +202,9 @@ def build_ops(cat):
         ops.append(dict(k="validate", text="", id="", id2=""))
     for ident, tag in cat.get("deltags", []):
         ops.append(dict(k="deltag", text="H\t" + tag, id=ident, id2=""))
+    for ident, tag in cat.get("badtags", []):
+        # a value the default datatype of a new tag cannot represent (a string with a tab)
+        ops.append(dict(k="settag", text="H\t" + tag, id=ident, id2="bad"))
     for ident, tag in cat.get("tagedits", []):
         ops.append(dict(k="settag", text="H\t" + tag, id=ident, id2=""))
         ops.append(dict(k="deltag", text="H\t" + tag, id=ident, id2=""))
@@ -245,11 +261,36 @@ def find_named(gfa, ident):
 def apply_op(gfapy, gfa, op, version):
     k = op["k"]
     if k == "add":
-        if op.get("inst"):
+        if op.get("held"):
+            # the line object that an earlier call disconnected (kept by the harness), with its
+            # positional fields edited while it was outside the Gfa, is added again: for the
+            # specification this is the addition of the line as it reads now
+            held = gfa.__dict__.setdefault("_verif_held", {})
+            o = held.pop(op["held"], None)
+            if o is None:
+                gfa.add_line(op["text"])
+            else:
+                old, new = op["held"].split("\t"), op["text"].split("\t")
+                names = o.positional_fieldnames
+                for i in range(1, min(len(old), len(new), len(names) + 1)):
+                    if old[i] != new[i]:
+                        o.set(names[i - 1], new[i])
+                gfa.add_line(o)
+        elif op.get("inst"):
             # a Line instance instead of text: same specified action
             gfa.add_line(gfapy.Line(op["text"], vlevel=gfa.vlevel, dialect=gfa.dialect))
         else:
             gfa.add_line(op["text"])
+    elif k == "addcl":
+        o = find_named(gfa, op["id"])
+        if o is None or o.virtual:
+            raise gfapy.NotFoundError("no line " + op["id"])
+        c = o.clone()
+        if o.record_type in ("L", "C"):
+            c.set("ID", op["id2"])
+        else:
+            c.name = op["id2"]
+        gfa.add_line(c)
     elif k == "addc":
         # an instance that already belongs to this Gfa is offered again
         o = find_instance(gfa, op["text"], version)
@@ -282,6 +323,8 @@ def apply_op(gfapy, gfa, op, version):
             gfa.rm(o)              # removal by instance through the Gfa ...
         else:
             o.disconnect()         # ... or through the line itself
+        if o is not None and op.get("hold"):
+            gfa.__dict__.setdefault("_verif_held", {})[op["text"]] = o
     elif k == "setf":
         o = find_instance(gfa, op["texts"][0], version)
         if o is None:
@@ -298,8 +341,10 @@ def apply_op(gfapy, gfa, op, version):
         n, t, v = op["text"].split("\t")[1].split(":", 2)
         if k == "deltag":
             o.delete(n)
+        elif op["id2"] == "bad":
+            o.set(n, "a\tb")
         else:
-            if n in o.tagnames and o.get_datatype(n) != t:
+            if o.get_datatype(n) != t:
                 o.set_datatype(n, t)       # the operation sets the tag as written: datatype and value
             o.set(n, int(v) if t == "i" else v)
     elif k == "ren":
@@ -573,9 +618,9 @@ def random_jobs(catname, n, depth, seed, vlevel=1, kind="rand", cfgversion=None)
     ops = build_ops(cat)
     rnd = random.Random(seed)
     adds = [o for o in ops if o["k"] == "add"]
-    others = [o for o in ops if o["k"] != "add"]
+    others = [o for o in ops if o["k"] != "add" and (vlevel >= 3 or o.get("id2") != "bad")]
     jobs = []
-    universe = sorted(set(cat["ids"]) | {b for _, b in cat["renames"]})
+    universe = universe_of(cat)
     for i in range(n):
         h = []
         for _ in range(depth):
@@ -641,7 +686,7 @@ def mc_histories(catname, depth, name, cfgversion=None, vlevel=1, ops=None, time
 
 def history_jobs(leaves, ops, catname, kind, cfgversion=None, vlevel=1):
     cat = CATALOGUES[catname]
-    universe = sorted(set(cat["ids"]) | {b for _, b in cat["renames"]})
+    universe = universe_of(cat)
     jobs = []
     for n, h in enumerate(leaves):
         jobs.append(dict(id="%s-%s-%d" % (kind, catname, n), kind=kind,
@@ -659,8 +704,8 @@ def doc_jobs(catname, n, nmut, seed, vlevel=1, kind="doc", cfgversion=None):
     ops = build_ops(cat)
     rnd = random.Random(seed)
     adds = [o for o in ops if o["k"] == "add"]
-    others = [o for o in ops if o["k"] != "add"]
-    universe = sorted(set(cat["ids"]) | {b for _, b in cat["renames"]})
+    others = [o for o in ops if o["k"] != "add" and (vlevel >= 3 or o.get("id2") != "bad")]
+    universe = universe_of(cat)
     jobs = []
     for i in range(n):
         k = rnd.randint(3, min(len(adds), 12))
@@ -672,6 +717,41 @@ def doc_jobs(catname, n, nmut, seed, vlevel=1, kind="doc", cfgversion=None):
         jobs.append(dict(id="%s-%s-%d" % (kind, catname, i), kind=kind,
                          cfg=dict(version=cfgversion or cat["version"], vlevel=vlevel),
                          ops=h, universe=universe))
+    return jobs
+
+
+def clone_jobs(catname, n, nmut, seed, vlevel=1, kind="clone"):
+    """a document, a clone of one of its lines added under another identifier, then tag edits and
+    deletions on the clone and on the original in turn (AddClone of spec/Gfa.tla: the two lines
+    share nothing)"""
+    cat = CATALOGUES[catname]
+    ops = build_ops(cat)
+    rnd = random.Random(seed)
+    adds = [o for o in ops if o["k"] == "add"]
+    named = {}
+    for o in adds:
+        f = o["text"].split("\t")
+        if f[0] in "SPEGOU" and len(f) > 1:
+            named.setdefault(f[1], []).append(o)
+    pairs = [(a, b) for a, b in cat.get("clones", []) if a in named]
+    jobs = []
+    for i in range(n):
+        a, b = rnd.choice(pairs)
+        doc = [rnd.choice(named[a])] + rnd.sample(adds, rnd.randint(2, 7))
+        rnd.shuffle(doc)
+        h = list(doc) + [dict(k="addcl", text="", id=a, id2=b)]
+        edits = [o for o in ops if o["k"] in ("settag", "deltag") and o["id"] in (a, b)
+                 and (vlevel >= 3 or o["id2"] != "bad")]
+        for _ in range(nmut):
+            c = rnd.random()
+            if c < 0.75 and edits:
+                h.append(rnd.choice(edits))
+            elif c < 0.85:
+                h.append(dict(k="rm", text="", id=rnd.choice((a, b)), id2=""))
+            else:
+                h.append(rnd.choice(adds))
+        jobs.append(dict(id="%s-%s-%d" % (kind, catname, i), kind=kind, cfg=dict(version=cat["version"], vlevel=vlevel),
+                         ops=h, universe=universe_of(cat)))
     return jobs
 
 
@@ -726,6 +806,20 @@ def edit_jobs(catname, n, nmut, seed, vlevel=1, kind="edit"):
                     or (f[0] == "E" and pos <= 7) or (f[0] in "POU")
                 if not refused:
                     cur[cur.index(t)] = new
+            elif c < 0.72 and f[0] in "LCEGF":
+                # the same object is disconnected, edited while outside the Gfa (every field may be
+                # edited then) and added again
+                npos = {"L": 5, "C": 6, "E": 8, "G": 5, "F": 7}[f[0]]
+                new = list(f)
+                for _k in range(rnd.randint(1, 2)):
+                    pos = rnd.randint(2 if f[0] in "EG" else 1, npos)
+                    vals = EDIT_VALUES.get((f[0], ver, pos)) or EDIT_VALUES.get((f[0], None, pos))
+                    if vals:
+                        new[pos] = rnd.choice(vals)
+                new = "\t".join(new)
+                h.append(dict(k="disc", text=t, id="", id2="", hold=True))
+                h.append(dict(k="add", text=new, id="", id2="", held=t))
+                cur[cur.index(t)] = new
             elif c < 0.8 and f[0] != "S":
                 h.append(dict(k="disc", text=t, id="", id2=""))
             elif c < 0.9:
